@@ -47,9 +47,14 @@ def Hist.flush (h : Hist) : Hist :=
     act.filter (isOrdered h.st.lastFlush), act.filter (fun c => !isOrdered h.st.lastFlush c)⟩
   { h with st := h.st.flush, gens := g :: h.gens, flushedTo := h.batches.length }
 
+/-- the measurement a series belongs to: the harness numbers the series of its k-th measurement
+`100·k + i` (every measurement has its own data files, so a crash between two renames of one flush
+leaves the files of some measurements visible and not the others'). -/
+def mstOf (s : Nat) : Nat := s / 100
+
 /-- the durable state observed in a crash image. -/
 structure Durable where
-  vis : List (Nat × Bool)            -- (generation, ordered?) of every visible data file
+  vis : List (Nat × Bool × Nat)      -- (generation, ordered?, measurement) of every visible data file
   wal : List (Nat × Nat)             -- (partition, batch id) of every complete record, per partition in file order
 deriving Repr
 
@@ -73,10 +78,13 @@ def replayOrder (n : Nat) (d : Durable) : List Nat :=
     | [r] => r.s
     | _ => 0
 
+/-- the cells of a generation's files of one kind that are visible. -/
+def visPart (d : Durable) (no : Nat) (ordered : Bool) (cells : List Cell) : List Cell :=
+  cells.filter fun c => d.vis.contains (no, ordered, mstOf c.s)
+
 def fileCells (h : Hist) (d : Durable) : List Cell :=
-  let visOOO := h.gens.filter fun g => d.vis.contains (g.no, false)
-  let visOrd := h.gens.filter fun g => d.vis.contains (g.no, true)
-  (visOOO.map (·.ooo)).flatten ++ (visOrd.map (·.ordered)).flatten
+  (h.gens.map fun g => visPart d g.no false g.ooo).flatten ++
+    (h.gens.map fun g => visPart d g.no true g.ordered).flatten
 
 /-- cells a reader consults after recovery, in precedence order: the replayed memtable, then
 the visible out-of-order files (newest first), then the visible ordered files. -/
@@ -86,9 +94,10 @@ def recoveredCells (h : Hist) (d : Durable) : List Cell :=
 def recoveredRead (h : Hist) (d : Durable) (fields : List String) :=
   readCells (recoveredCells h d) (-1000000) 1000000 true fields
 
-/-- both files of a generation are visible (an empty part has no file). -/
+/-- every file of a generation is visible (a measurement without cells of a kind has no such file). -/
 def fullGen (d : Durable) (g : Gen) : Bool :=
-  (g.ordered.isEmpty || d.vis.contains (g.no, true)) && (g.ooo.isEmpty || d.vis.contains (g.no, false))
+  g.ordered.all (fun c => d.vis.contains (g.no, true, mstOf c.s)) &&
+    g.ooo.all (fun c => d.vis.contains (g.no, false, mstOf c.s))
 
 /-- the decidable condition under which recovery is exact (see `OG.C01.recover_exact`):
 the replayed records are a run `w, w+1, …, m-1` of batch ids in write order, every generation
